@@ -2,10 +2,11 @@
 C16 — Attributes: only the name's owner writes them; lookups and expiry are faithful.
 
 Property theorems over the executable model `PvModel.Attr` (attribute + name keepers,
-message servers, begin-blocker), for ALL message sequences, signers, accounts, names,
-values, types, expirations and block times (no bound, block times need not even increase).
-`s0` is any state with an empty attribute store (`Init`); `run s0 ops` is the state after
-the history `ops` (rejected messages change nothing).  Helper lemmas: `PvProofs/Lemmas/Attr*`.
+message servers, begin-blocker) of the CURRENT code (with the sweep as repaired by commit
+f2249cacd), for ALL message sequences, signers, accounts, names, values, types, expirations
+and block times (no bound, block times need not even increase).  `s0` is any state with an
+empty attribute store (`Init`); `run s0 ops` is the state after the history `ops` (rejected
+messages change nothing).  Helper lemmas: `PvProofs/Lemmas/Attr*`.
 
 Clauses of the property and where they are proved:
  1. only the current owner of a name writes under it   → `only_name_owner_writes`,
@@ -14,26 +15,23 @@ Clauses of the property and where they are proved:
     (via the invariant `counter_dominates_records`; equality of counter and record count is
     FALSE of the code: `counter_can_exceed_records`; `counter_exact_partial` without overwrites)
  3. an attribute disappears only by owner deletion, name deletion or its stored expiration
-    passing → FALSE of the code: `disappears_only_if_false` (three concrete histories);
-    `disappears_only_if_except_sweep` (every message other than the sweep is fine),
-    `disappears_only_if_partial` (the sweep too, on histories without a stale queue entry),
-    `noStale_preserved_partial` (which messages can create one)
+    passing → `disappears_only_if` (all histories, every accepted message),
+    `unexpired_survives_begin`, `on_witnesses`.
+    Before commit f2249cacd the clause was false of the code (stale expiration-queue entries):
+    `disappears_only_if_false_before_fix`, `verdict_on_witness_before_fix` (about `runPreFix`).
  4. an expired attribute is gone after the next block begins → `expired_gone_after_begin`
  5. name deletion removes exactly the attributes under the name → `deleteName_purges_exactly`
- 6. the checker run on the implementation is these conclusions → `verdict_ok_partial`
- 7. the proposed repair of the sweep (`stepFixed`, NOT applied to the Go code) restores clause 3
-    for all histories and keeps every other clause → `fixed_*`
+ 6. the checker run on the implementation is these conclusions → `verdict_ok`
 -/
-import PvProofs.Lemmas.AttrStale
-import PvProofs.Lemmas.AttrFixed
+import PvProofs.Lemmas.AttrStep
 import PvProofs.Lemmas.AttrExact
 
 set_option linter.unusedSimpArgs false
 set_option linter.unusedVariables false
 
 namespace PvProofs.C16
-open PvModel.Attr PvProofs.Lemmas.AttrStore PvProofs.Lemmas.AttrInv PvProofs.Lemmas.AttrStep
-  PvProofs.Lemmas.AttrStale PvProofs.Lemmas.AttrFixed PvProofs.Lemmas.AttrExact
+open PvModel.Attr PvProofs.Lemmas.AttrStore PvProofs.Lemmas.AttrInv PvProofs.Lemmas.AttrSweep
+  PvProofs.Lemmas.AttrStep PvProofs.Lemmas.AttrExact
 
 /-! ## Invariants of every reachable state -/
 
@@ -163,7 +161,8 @@ theorem writes_are_what_the_owner_signed {s s' : State} {op : Op} (hi : Inv s) (
     left; exact ((foldl_purgeAcct_recs name _ _ r').mp hr').1
   | beginBlock t =>
     rw [begin_ok h] at hr'
-    left; exact ((foldl_expireOne_recs _ _ r').mp hr').1
+    have hi0 : Inv { s with now := t } := ⟨hi.keys, hi.cntGe, hi.bound, hi.queueComplete⟩
+    left; exact ((foldl_expireOne_recs _ _ hi0 r').mp hr').1
 
 /-- Binding a name and transferring it (`MsgModifyName`) leave every attribute in place: the new
 owner inherits control over the attributes already stored under the name. -/
@@ -203,28 +202,29 @@ theorem lookupComplete_of_inv {s : State} (hi : Inv s) : lookupComplete s = true
 
 /-! ## Clause 3 — why an attribute may disappear -/
 
-/-- The clause as stated ("an attribute disappears only when its name's owner deletes it, when
-the name itself is deleted, or when the expiration time CURRENTLY stored on it has passed") is
-false of the code.  Three histories, each ending in a block at time 106/111 that removes an
-attribute whose stored expiration is later or absent:
+/-- BEFORE commit f2249cacd ("fix: expired-attribute sweep deleted attributes through stale
+expiration-queue entries") the clause was false of the code.  `runPreFix` / `applyPreFix` are
+the model with the sweep as it was then.  Three histories, each ending in a block at time
+106/111 that removed an attribute whose stored expiration is later or absent:
  (a) identical (account, name, value) re-added with a later expiration (`SetAttribute` leaves
      the old queue entry);
  (b) name deleted (`PurgeAttribute` leaves queue entries), re-bound, attribute re-added;
- (c) `UpdateAttribute` onto a value that is already stored with an expiration. -/
-theorem disappears_only_if_false :
+ (c) `UpdateAttribute` onto a value that is already stored with an expiration.
+The same histories on the current code: `on_witnesses`. -/
+theorem disappears_only_if_false_before_fix :
     let s0 : State := { now := 100, accts := ["A", "C"], names := [("kyc.vf", "A")] }
     let a : List Op := [.add "A" ⟨"B", "kyc.vf", "1", .string, some 110⟩, .add "A" ⟨"B", "kyc.vf", "1", .int, some 200⟩]
     let b : List Op := [.add "A" ⟨"B", "kyc.vf", "1", .string, some 110⟩, .deleteName "A" "kyc.vf",
       .bind "kyc.vf" "C", .add "C" ⟨"B", "kyc.vf", "1", .string, none⟩]
     let c : List Op := [.add "A" ⟨"B", "kyc.vf", "1", .string, none⟩, .add "A" ⟨"B", "kyc.vf", "2", .string, some 105⟩,
       .update "A" "B" "kyc.vf" "1" .string "2" .string]
-    (run s0 a).recs = [⟨"B", "kyc.vf", "1", .int, some 200⟩] ∧
-      (apply (run s0 a) (.beginBlock 111)).recs = [] ∧
-      disappearancesJustified (run s0 a) (.beginBlock 111) (apply (run s0 a) (.beginBlock 111)) = false ∧
-    (run s0 b).recs = [⟨"B", "kyc.vf", "1", .string, none⟩] ∧
-      disappearancesJustified (run s0 b) (.beginBlock 111) (apply (run s0 b) (.beginBlock 111)) = false ∧
-    (run s0 c).recs = [⟨"B", "kyc.vf", "2", .string, none⟩] ∧
-      disappearancesJustified (run s0 c) (.beginBlock 106) (apply (run s0 c) (.beginBlock 106)) = false := by
+    (runPreFix s0 a).recs = [⟨"B", "kyc.vf", "1", .int, some 200⟩] ∧
+      (applyPreFix (runPreFix s0 a) (.beginBlock 111)).recs = [] ∧
+      disappearancesJustified (runPreFix s0 a) (.beginBlock 111) (applyPreFix (runPreFix s0 a) (.beginBlock 111)) = false ∧
+    (runPreFix s0 b).recs = [⟨"B", "kyc.vf", "1", .string, none⟩] ∧
+      disappearancesJustified (runPreFix s0 b) (.beginBlock 111) (applyPreFix (runPreFix s0 b) (.beginBlock 111)) = false ∧
+    (runPreFix s0 c).recs = [⟨"B", "kyc.vf", "2", .string, none⟩] ∧
+      disappearancesJustified (runPreFix s0 c) (.beginBlock 106) (applyPreFix (runPreFix s0 c) (.beginBlock 106)) = false := by
   decide
 
 /-- Every message other than the begin-block sweep satisfies the clause unconditionally: an
@@ -306,116 +306,39 @@ theorem disappears_only_if_except_sweep {s s' : State} {op : Op} (hi : Inv s) (h
       exact fun hx => hn hx.2
   | beginBlock t => exact absurd rfl (hns t)
 
-/-- The sweep satisfies the clause when the queue has no stale entry: every attribute it
-removes has a stored expiration strictly before the new block time. -/
-theorem sweep_disappears_only_if_partial {s s' : State} {t : Nat} (hi : Inv s) (hst : NoStaleP s)
+/-- The begin-block sweep satisfies the clause: every attribute it removes has a stored
+expiration strictly before the new block time (the queue entry must be the one of the stored
+expiration, and only entries before the block time are visited). -/
+theorem sweep_disappears_only_if {s s' : State} {t : Nat} (hi : Inv s)
     (h : step s (.beginBlock t) = .ok s') : disappearancesJustified s (.beginBlock t) s' = true := by
   unfold disappearancesJustified
   simp only [List.all_eq_true, Bool.or_eq_true, hasKey_iff]
   intro r hr
   rw [begin_ok h]
-  by_cases hx : ∀ q ∈ s.queue.filter (fun q => decide (q.1 < t)), r.key ≠ q.2
-  · left; exact ⟨r, (foldl_expireOne_recs _ _ r).mpr ⟨hr, hx⟩, rfl⟩
+  have hi0 : Inv { s with now := t } := ⟨hi.keys, hi.cntGe, hi.bound, hi.queueComplete⟩
+  by_cases hx : ∀ q ∈ s.queue.filter (fun q => decide (q.1 < t)), ¬ (r.key = q.2 ∧ r.exp = some q.1)
+  · left; exact ⟨r, (foldl_expireOne_recs _ _ hi0 r).mpr ⟨hr, hx⟩, rfl⟩
   · right
     simp only [Classical.not_forall, Classical.not_imp, Decidable.not_not] at hx
-    obtain ⟨q, hq, hk⟩ := hx
-    obtain ⟨hq1, hq2⟩ := List.mem_filter.mp hq
+    obtain ⟨q, hq, _, hx0⟩ := hx
+    obtain ⟨_, hq2⟩ := List.mem_filter.mp hq
     simp only [decide_eq_true_eq] at hq2
-    obtain ⟨r0, hr0, hk0, hx0⟩ := hst q hq1
-    have : r0 = r := hi.keys.eq_of_key hr0 hr (by rw [hk0, hk])
-    subst this
     simp [justified, hx0, hq2]
 
-/-- Which messages keep the queue free of stale entries: all of them except an `add` over a
-stored key, an `update` onto a stored value, and a name deletion while attributes under the
-name carry expirations (`benign`).  These three are exactly the shapes of
-`disappears_only_if_false`. -/
-theorem noStale_preserved_partial {s s' : State} {op : Op} (hi : Inv s) (hst : NoStaleP s)
-    (hb : benign s op = true) (h : step s op = .ok s') : NoStaleP s' := by
-  cases op with
-  | add sg a =>
-    obtain ⟨_, _, rfl⟩ := add_ok h
-    apply put_noStale hst
-    intro r hr hk
-    simp only [benign, Bool.not_eq_true'] at hb
-    have : hasKey s a.key = true := (hasKey_iff s a.key).mpr ⟨r, hr, hk⟩
-    rw [hb] at this; cases this
-  | update sg addr name ov ot nv nt =>
-    obtain ⟨_, cur, hc, hck, _, rfl⟩ := update_ok h
-    apply put_noStale (deleteOne_noStale hi.keys hc hst)
-    intro r hr hk
-    rw [deleteOne_recs] at hr
-    obtain ⟨hr1, hr2⟩ := List.mem_filter.mp hr
-    simp only [decide_eq_true_eq] at hr2
-    simp only [benign, Bool.or_eq_true, Bool.not_eq_true', decide_eq_true_eq] at hb
-    rcases hb with hb | hb
-    · have : hasKey s (addr, name, nv) = true := (hasKey_iff s _).mpr ⟨r, hr1, hk⟩
-      rw [hb] at this; cases this
-    · subst hb
-      apply hr2
-      rw [hk, hck]; rfl
-  | updateExp sg addr name v e =>
-    obtain ⟨_, cur, hc, _, rfl⟩ := updateExp_ok h
-    exact reexp_noStale e hi.keys hc hst
-  | delete sg addr name =>
-    obtain ⟨_, _, rfl⟩ := delete_ok h
-    exact foldl_deleteOne_noStale _ s (fun a ha => (toDelete_mem ha).1) (hi.keys.filter _) hi hst
-  | deleteDistinct sg addr name v =>
-    obtain ⟨_, _, rfl⟩ := deleteDistinct_ok h
-    exact foldl_deleteOne_noStale _ s (fun a ha => (toDelete_mem ha).1) (hi.keys.filter _) hi hst
-  | bind name owner =>
-    obtain ⟨_, rfl⟩ := bind_ok h
-    exact hst
-  | transfer au name owner =>
-    obtain ⟨_, rfl⟩ := transfer_ok h
-    exact hst
-  | deleteName sg name =>
-    obtain ⟨_, rfl⟩ := deleteName_ok h
-    intro q hq
-    rw [foldl_purgeAcct_queue] at hq
-    obtain ⟨r, hr, hk, hx⟩ := hst q hq
-    refine ⟨r, (foldl_purgeAcct_recs name _ _ r).mpr ⟨hr, ?_⟩, hk, hx⟩
-    intro hn
-    simp only [benign, List.all_eq_true, Bool.or_eq_true, Bool.not_eq_true', decide_eq_false_iff_not] at hb
-    rcases hb r hr with hb | hb
-    · exact hb hn.2
-    · rw [hx] at hb; cases hb
-  | beginBlock t =>
-    rw [begin_ok h]
-    exact sweep_noStale t hi.keys hst
-
-theorem init_noStale {s : State} (h : Init s) : NoStaleP s := by
-  intro q hq; rw [h.2.2] at hq; cases hq
-
-/-- Histories all of whose messages are benign never have a stale queue entry. -/
-theorem benignRun_noStale (ops : List Op) :
-    ∀ s : State, Inv s → NoStaleP s → benignRun s ops = true → NoStaleP (run s ops) := by
-  induction ops with
-  | nil => intro s _ h _; exact h
-  | cons op t ih =>
-    intro s hi hst hb
-    simp only [benignRun, Bool.and_eq_true] at hb
-    apply ih _ (apply_inv op hi) _ hb.2
-    unfold apply
-    cases h : step s op with
-    | ok s' => exact noStale_preserved_partial hi hst hb.1 h
-    | error e => exact hst
-
-/-- PARTIAL form of clause 3 (full statement: for every history `ops` and every accepted `op`,
-`disappearancesJustified (run s0 ops) op s'` — false, see `disappears_only_if_false`).
-Proved: it holds after every history in which no identical key is re-added while stored, no
-update lands on a stored value, and no name is deleted while its attributes carry expirations
-(`benignRun`); the message `op` itself is arbitrary.  What is missing is exactly the three
-stale-queue-entry routes. -/
-theorem disappears_only_if_partial (s0 : State) (h0 : Init s0) (ops : List Op)
-    (hb : benignRun s0 ops = true) (op : Op) (s' : State) (h : step (run s0 ops) op = .ok s') :
-    disappearancesJustified (run s0 ops) op s' = true := by
-  have hi := invariants_hold s0 h0 ops
-  have hst := benignRun_noStale ops s0 (init_inv h0) (init_noStale h0) hb
+theorem disappears_only_if_inv {s s' : State} {op : Op} (hi : Inv s) (h : step s op = .ok s') :
+    disappearancesJustified s op s' = true := by
   by_cases hs : ∃ t, op = .beginBlock t
   · obtain ⟨t, rfl⟩ := hs
-    exact sweep_disappears_only_if_partial hi hst h
+    exact sweep_disappears_only_if hi h
   · exact disappears_only_if_except_sweep hi h (fun t e => hs ⟨t, e⟩)
+
+/-- Clause 3 at full strength: after ANY history, for every accepted message, an attribute
+whose key is gone afterwards was deleted (or updated away) by a message signed by the owner of
+its name, or its name was deleted by the name's owner, or the message is a block beginning at
+a time after the expiration currently stored on the attribute. -/
+theorem disappears_only_if (s0 : State) (h0 : Init s0) (ops : List Op) (op : Op) (s' : State)
+    (h : step (run s0 ops) op = .ok s') : disappearancesJustified (run s0 ops) op s' = true :=
+  disappears_only_if_inv (invariants_hold s0 h0 ops) h
 
 /-! ## Clause 4 — expired attributes are gone after the next block begins -/
 
@@ -427,7 +350,8 @@ theorem expired_gone_after_begin_inv {s s' : State} {t : Nat} (hi : Inv s)
   simp only [List.all_eq_true]
   intro r hr
   rw [begin_ok h] at hr
-  obtain ⟨hr1, hr2⟩ := (foldl_expireOne_recs _ _ r).mp hr
+  have hi0 : Inv { s with now := t } := ⟨hi.keys, hi.cntGe, hi.bound, hi.queueComplete⟩
+  obtain ⟨hr1, hr2⟩ := (foldl_expireOne_recs _ _ hi0 r).mp hr
   cases he : r.exp with
   | none => rfl
   | some e =>
@@ -435,7 +359,7 @@ theorem expired_gone_after_begin_inv {s s' : State} {t : Nat} (hi : Inv s)
     by_cases hlt : e < t
     · exfalso
       have hq : (e, r.key) ∈ s.queue := hi.queueComplete r hr1 e he
-      exact hr2 (e, r.key) (List.mem_filter.mpr ⟨hq, by simpa using hlt⟩) rfl
+      exact hr2 (e, r.key) (List.mem_filter.mpr ⟨hq, by simpa using hlt⟩) ⟨rfl, he⟩
     · omega
 
 theorem expired_gone_after_begin (s0 : State) (h0 : Init s0) (ops : List Op) (t : Nat) (s' : State)
@@ -448,30 +372,19 @@ theorem expired_gone_after_begin (s0 : State) (h0 : Init s0) (ops : List Op) (t 
   rw [he] at h2
   simpa using h2
 
-/-- An attribute whose stored expiration has not passed, and for which the queue holds no other
-(stale) time, survives the sweep: expiry is not early either. -/
-theorem unexpired_survives_begin_partial {s s' : State} {t : Nat} (hi : Inv s) (hst : NoStaleP s)
+/-- Expiry is not early either: an attribute whose stored expiration has not passed (or that
+has none) survives the sweep, whatever is in the queue. -/
+theorem unexpired_survives_begin {s s' : State} {t : Nat} (hi : Inv s)
     (h : step s (.beginBlock t) = .ok s') (r : Attribute) (hr : r ∈ s.recs)
     (hne : ∀ e, r.exp = some e → t ≤ e) : r ∈ s'.recs := by
-  have hj := sweep_disappears_only_if_partial hi hst h
-  unfold disappearancesJustified at hj
-  simp only [List.all_eq_true, Bool.or_eq_true, hasKey_iff] at hj
-  rcases hj r hr with ⟨r1, hr1, hk⟩ | hj
-  · have hw := writes_are_what_the_owner_signed hi h
-    unfold appearancesJustified at hw
-    simp only [List.all_eq_true, Bool.or_eq_true, List.contains_iff_mem] at hw
-    rcases hw r1 hr1 with hm | hm
-    · have : r1 = r := hi.keys.eq_of_key hm hr hk
-      rw [← this]; exact hr1
-    · simp [mayWrite] at hm
-  · exfalso
-    unfold justified at hj
-    cases he : r.exp with
-    | none => simp [he] at hj
-    | some e =>
-      simp [he] at hj
-      have := hne e he
-      omega
+  rw [begin_ok h]
+  have hi0 : Inv { s with now := t } := ⟨hi.keys, hi.cntGe, hi.bound, hi.queueComplete⟩
+  refine (foldl_expireOne_recs _ _ hi0 r).mpr ⟨hr, ?_⟩
+  rintro q hq ⟨_, hx⟩
+  obtain ⟨_, hq2⟩ := List.mem_filter.mp hq
+  simp only [decide_eq_true_eq] at hq2
+  have := hne q.1 hx
+  omega
 
 /-! ## Clause 5 — deleting a name -/
 
@@ -528,20 +441,14 @@ theorem updateExp_stores {s s' : State} {sg addr name v : String} {e : Option Na
 
 /-! ## The checker is the conjunction of the conclusions above -/
 
-/-- On a transition of the model from a reachable state without stale queue entries the
-checker that `bin/check` runs on the implementation's dumps answers `ok`.  PARTIAL for the same
-reason as `disappears_only_if_partial` (with a stale entry the answer is
-`fail:disappears:swept_at_stale_queue_time`, see `verdict_on_witness`). -/
-theorem verdict_ok_partial {s s' : State} {op : Op} (hi : Inv s) (hst : NoStaleP s)
-    (h : step s op = .ok s') : verdict s op true s' = "ok" := by
+/-- On every transition of the model from a reachable state the checker that `bin/check` runs
+on the implementation's dumps answers `ok`. -/
+theorem verdict_ok {s s' : State} {op : Op} (hi : Inv s) (h : step s op = .ok s') :
+    verdict s op true s' = "ok" := by
   have h1 := only_name_owner_writes_inv hi h
   have h2 := lookupComplete_of_inv (step_inv hi h)
   have h3 := writes_are_what_the_owner_signed hi h
-  have h4 : disappearancesJustified s op s' = true := by
-    by_cases hs : ∃ t, op = .beginBlock t
-    · obtain ⟨t, rfl⟩ := hs
-      exact sweep_disappears_only_if_partial hi hst h
-    · exact disappears_only_if_except_sweep hi h (fun t e => hs ⟨t, e⟩)
+  have h4 := disappears_only_if_inv hi h
   have h5 : s.recs.find? (fun r => !(hasKey s' r.key || justified s op r)) = none := by
     rw [List.find?_eq_none]
     intro r hr
@@ -554,107 +461,44 @@ theorem verdict_ok_partial {s s' : State} {op : Op} (hi : Inv s) (hst : NoStaleP
   | beginBlock t => simp [expired_gone_after_begin_inv hi h]
   | _ => rfl
 
-/-- On the re-add witness the checker names the narrow clause recorded in
-`known_findings.json`. -/
-theorem verdict_on_witness :
+/-- BEFORE commit f2249cacd: on the re-add witness the checker named the narrow clause that
+was recorded (now `fixed`) in `known_findings.json`. -/
+theorem verdict_on_witness_before_fix :
     let s0 : State := { now := 100, accts := ["A"], names := [("kyc.vf", "A")] }
-    let s := run s0 [.add "A" ⟨"B", "kyc.vf", "1", .string, some 110⟩, .add "A" ⟨"B", "kyc.vf", "1", .int, some 200⟩]
-    verdict s (.beginBlock 111) true (apply s (.beginBlock 111)) = "fail:disappears:swept_at_stale_queue_time" := by
+    let s := runPreFix s0 [.add "A" ⟨"B", "kyc.vf", "1", .string, some 110⟩, .add "A" ⟨"B", "kyc.vf", "1", .int, some 200⟩]
+    verdict s (.beginBlock 111) true (applyPreFix s (.beginBlock 111)) = "fail:disappears:swept_at_stale_queue_time" := by
   decide
 
-/-! ## The proposed repair is sufficient (model of the patched sweep; the Go code is unchanged)
-
-`stepFixed` = `step` with `DeleteExpiredAttributes` deleting an attribute only when the queue
-entry is that of its currently stored expiration.  No other function changes (stale entries
-are still created; they are dropped harmlessly when their time comes). -/
-
-theorem fixed_invariants_hold (s0 : State) (h0 : Init s0) (ops : List Op) : Inv (runFixed s0 ops) :=
-  runFixed_inv ops s0 (init_inv h0)
-
-/-- Clause 3 at full strength, for ALL histories and every accepted message, once the sweep is
-repaired. -/
-theorem fixed_disappears_only_if (s0 : State) (h0 : Init s0) (ops : List Op) (op : Op) (s' : State)
-    (h : stepFixed (runFixed s0 ops) op = .ok s') :
-    disappearancesJustified (runFixed s0 ops) op s' = true := by
-  have hi := fixed_invariants_hold s0 h0 ops
-  by_cases hs : ∃ t, op = .beginBlock t
-  · obtain ⟨t, rfl⟩ := hs
-    unfold disappearancesJustified
-    simp only [List.all_eq_true, Bool.or_eq_true, hasKey_iff]
-    intro r hr
-    rw [stepFixed_begin h]
-    have hi0 : Inv { runFixed s0 ops with now := t } := ⟨hi.keys, hi.cntGe, hi.bound, hi.queueComplete⟩
-    by_cases hx : ∀ q ∈ (runFixed s0 ops).queue.filter (fun q => decide (q.1 < t)), ¬ (r.key = q.2 ∧ r.exp = some q.1)
-    · left; exact ⟨r, (foldl_expireOneFixed_recs _ _ hi0 r).mpr ⟨hr, hx⟩, rfl⟩
-    · right
-      simp only [Classical.not_forall, Classical.not_imp, Decidable.not_not] at hx
-      obtain ⟨q, hq, _, hx0⟩ := hx
-      obtain ⟨_, hq2⟩ := List.mem_filter.mp hq
-      simp only [decide_eq_true_eq] at hq2
-      simp [justified, hx0, hq2]
-  · rw [stepFixed_other (fun t e => hs ⟨t, e⟩)] at h
-    exact disappears_only_if_except_sweep hi h (fun t e => hs ⟨t, e⟩)
-
-/-- Clause 4 still holds with the repaired sweep. -/
-theorem fixed_expired_gone_after_begin (s0 : State) (h0 : Init s0) (ops : List Op) (t : Nat) (s' : State)
-    (h : stepFixed (runFixed s0 ops) (.beginBlock t) = .ok s') : expiredGone t s' = true := by
-  have hi := fixed_invariants_hold s0 h0 ops
-  have hi0 : Inv { runFixed s0 ops with now := t } := ⟨hi.keys, hi.cntGe, hi.bound, hi.queueComplete⟩
-  unfold expiredGone
-  simp only [List.all_eq_true]
-  intro r hr
-  rw [stepFixed_begin h] at hr
-  obtain ⟨hr1, hr2⟩ := (foldl_expireOneFixed_recs _ _ hi0 r).mp hr
-  cases he : r.exp with
-  | none => rfl
-  | some e =>
-    simp only [decide_eq_true_eq]
-    by_cases hlt : e < t
-    · exfalso
-      have hq : (e, r.key) ∈ (runFixed s0 ops).queue := hi.queueComplete r hr1 e he
-      exact hr2 (e, r.key) (List.mem_filter.mpr ⟨hq, by simpa using hlt⟩) ⟨rfl, he⟩
-    · omega
-
-/-- Clauses 1 and 2 and the frame are untouched by the repair. -/
-theorem fixed_other_clauses (s0 : State) (h0 : Init s0) (ops : List Op) (op : Op) (s' : State)
-    (h : stepFixed (runFixed s0 ops) op = .ok s') :
-    writerIsOwner (runFixed s0 ops) op = true ∧ lookupComplete s' = true := by
-  have hi := fixed_invariants_hold s0 h0 ops
-  refine ⟨?_, lookupComplete_of_inv (stepFixed_inv hi h)⟩
-  by_cases hs : ∃ t, op = .beginBlock t
-  · obtain ⟨t, rfl⟩ := hs; rfl
-  · rw [stepFixed_other (fun t e => hs ⟨t, e⟩)] at h
-    exact only_name_owner_writes_inv hi h
-
-/-- On the three witness histories the repaired sweep keeps the attribute and drops the stale
-entry. -/
-theorem fixed_on_witnesses :
+/-- The three witness histories on the current code: the sweep keeps the attribute and drops
+the stale entry. -/
+theorem on_witnesses :
     let s0 : State := { now := 100, accts := ["A", "C"], names := [("kyc.vf", "A")] }
     let a : List Op := [.add "A" ⟨"B", "kyc.vf", "1", .string, some 110⟩, .add "A" ⟨"B", "kyc.vf", "1", .int, some 200⟩, .beginBlock 111]
     let b : List Op := [.add "A" ⟨"B", "kyc.vf", "1", .string, some 110⟩, .deleteName "A" "kyc.vf",
       .bind "kyc.vf" "C", .add "C" ⟨"B", "kyc.vf", "1", .string, none⟩, .beginBlock 111]
     let c : List Op := [.add "A" ⟨"B", "kyc.vf", "1", .string, none⟩, .add "A" ⟨"B", "kyc.vf", "2", .string, some 105⟩,
       .update "A" "B" "kyc.vf" "1" .string "2" .string, .beginBlock 106]
-    (runFixed s0 a).recs = [⟨"B", "kyc.vf", "1", .int, some 200⟩] ∧ (runFixed s0 a).queue = [(200, ("B", "kyc.vf", "1"))] ∧
-    (runFixed s0 b).recs = [⟨"B", "kyc.vf", "1", .string, none⟩] ∧ (runFixed s0 b).queue = [] ∧
-    (runFixed s0 c).recs = [⟨"B", "kyc.vf", "2", .string, none⟩] ∧ (runFixed s0 c).queue = [] := by
+    (run s0 a).recs = [⟨"B", "kyc.vf", "1", .int, some 200⟩] ∧ (run s0 a).queue = [(200, ("B", "kyc.vf", "1"))] ∧
+    (run s0 b).recs = [⟨"B", "kyc.vf", "1", .string, none⟩] ∧ (run s0 b).queue = [] ∧
+    (run s0 c).recs = [⟨"B", "kyc.vf", "2", .string, none⟩] ∧ (run s0 c).queue = [] := by
   decide
 
 /-! ## Non-vacuity -/
 
-/-- A benign history with two names, a transfer, a refused foreign write, an expiry and a name
-deletion: hypotheses of the `_partial` theorems are met by non-trivial histories. -/
+/-- A history with two names, a transfer, a refused foreign write, a re-add of an identical key
+with a later expiration (the former defect), an expiry and a name deletion. -/
 example :
     let s0 : State := { now := 100, accts := ["A", "B", "C"], names := [("kyc.vf", "A"), ("aml.vf", "B")] }
     let ops : List Op := [
       .add "A" ⟨"C", "kyc.vf", "1", .string, some 110⟩, .add "B" ⟨"C", "aml.vf", "7", .int, none⟩,
       .add "B" ⟨"C", "kyc.vf", "2", .string, none⟩,          -- refused: B does not own kyc.vf
       .transfer "A" "kyc.vf" "B", .updateExp "B" "C" "kyc.vf" "1" (some 120),
-      .beginBlock 115, .add "B" ⟨"A", "kyc.vf", "2", .proto, some 116⟩, .beginBlock 117,
+      .beginBlock 115, .add "B" ⟨"A", "kyc.vf", "2", .proto, some 116⟩,
+      .add "B" ⟨"A", "kyc.vf", "2", .proto, some 300⟩, .beginBlock 117,
       .deleteName "B" "aml.vf"]
-    Init s0 ∧ benignRun s0 ops = true ∧
-      (run s0 ops).recs = [⟨"C", "kyc.vf", "1", .string, some 120⟩] ∧
-      accountsByAttribute (run s0 ops) "kyc.vf" = ["C"] ∧ noStale (run s0 ops) = true := by
+    Init s0 ∧
+      (run s0 ops).recs = [⟨"A", "kyc.vf", "2", .proto, some 300⟩, ⟨"C", "kyc.vf", "1", .string, some 120⟩] ∧
+      accountsByAttribute (run s0 ops) "kyc.vf" = ["A", "C"] := by
   decide
 
 end PvProofs.C16
